@@ -6,6 +6,7 @@
      every ACCTHEX / TARGETHEX is the FULL account name the written name resolves to at its place in the file
      (master account, apply account, one round of aliases) - computed by the harness
      PRED = (acct HEX) | (payee HEX) | (lt AMT) | (gt AMT) | (not P) | (and P Q) | (or P Q)
+          | (const 0|1) | (eq P Q) | (query C P Q)
      AMT  = - | (NUM DEN PREC KEYHEX)          KEYHEX = commodity symbol or - (none)
      COST = - | (u NUM DEN PREC SYMHEX) | (t NUM DEN PREC SYMHEX)
      LOT  = - | (NUM DEN PREC SYMHEX)
@@ -63,6 +64,9 @@ let rec pred_of = function
   | L [A "not"; p] -> PNot (pred_of p)
   | L [A "and"; p; q] -> PAnd (pred_of p, pred_of q)
   | L [A "or"; p; q] -> POr (pred_of p, pred_of q)
+  | L [A "const"; A b] -> PConst (b = "1")
+  | L [A "eq"; p; q] -> PEq (pred_of p, pred_of q)
+  | L [A "query"; c; p; q] -> PQuery (pred_of c, pred_of p, pred_of q)
   | _ -> failwith "pred"
 
 let line_of = function
